@@ -1,13 +1,29 @@
 (* C02 - credulous acceptance answers match the semantics.
    Statements only; proofs are [exact].
-   PROVED so far (every valid SAT oracle, every compact component of any size, every encoder):
-     - the selector-guarded query of CompleteSemanticsSolver (to which DC-PR is delegated): a model
-       is returned iff some complete extension of the component contains the argument;
-     - ST: the per-component credulous step of StableSemanticsSolver.
-   NOT YET PROVED in Coq (tied by trace replay + brute-force oracle on every run): component
-   gluing, GR (grounded fix-point), the SST / STG / ID loops. *)
+   PROVED (every valid SAT oracle, every threshold >= 1, every admissible encoder, every good view
+   of a framework of any size, every fuel, both certificate flags, every list of arguments):
+     - C02_credulous: for EVERY solver type with a credulous entry point (GR, CO, ST, SST, STG, ID)
+       the status of a completed run of [run_query .. QDC ..] is true iff some extension of the
+       WHOLE framework under the semantics contains a listed argument; the run never panics.
+     - C02_credulous_preferred: DC-PR, which the library delegates to the complete solver: the
+       status of the CO run is credulous acceptance under PR.
+     - C02_complete_component_partial, C02_stable_component_partial (kept): per-component steps.
+   NOT proved in Coq (by design): that the Rust code behaves like Model.Solvers (the tie: trace
+   replay on every run).  Termination and fuel: see C18.
+   Vocabulary of the whole-framework theorems (Proofs/TopBase.v, TopMax.v, SolverTop.v):
+     view_good g F   the view g (iteration orders of an AAFramework) presents the framework F;
+                     instances: view_of_af of any compact framework, view_of_fw of any store
+                     reachable from new_with_labels by any update history (C01_good_view_compact, C01_good_view_store);
+     supported s q   the trait implementation exists (all but CO-SE, CO-DS, PR-DC, for which the
+                     library delegates to another solver type and the model has no entry point);
+     enc_ok s e      the encoder may be used with the solver type (CO, SST: complete-based; STG:
+                     conflict-free based; PR, ID: complete- or admissible-based; GR, ST: any);
+     al_ok s q F al  nothing for SE queries and for GR / ST; otherwise the listed ids are arguments
+                     of F (the list may be empty and may contain repetitions).
+*)
 From Crusta Require Import Spec.AF Sat.Cnf Sat.Prog Model.Encoders Model.Graph Model.Solvers.
 From Crusta Require Import Proofs.EncSpec Proofs.SolverBasics Proofs.SolverThms.
+From Crusta Require Import Proofs.TopBase Proofs.TopMax Proofs.SolverTop.
 Open Scope prog_scope.
 
 Theorem C02_complete_component_partial : forall oracle thr, 1 <= thr -> valid_oracle oracle ->
@@ -34,5 +50,29 @@ Theorem C02_stable_component_partial : forall oracle thr, 1 <= thr -> valid_orac
               end).
 Proof. exact SolverThms.stable_component_cred_single. Qed.
 
+Theorem C02_credulous : forall oracle thr g F,
+  valid_oracle oracle -> 1 <= thr -> view_good g F ->
+  forall s e al fuel cert st0, supported s QDC -> enc_ok s e -> al_ok s QDC F al ->
+  match run_query oracle thr fuel s QDC cert e g al st0 with
+  | Done (OAcc b _) _ => b = true <-> cred s F al
+  | Done (OExt _) _ => False
+  | Panic _ => False
+  | _ => True
+  end.
+Proof. exact SolverTop.top_credulous. Qed.
+
+Theorem C02_credulous_preferred : forall oracle thr g F,
+  valid_oracle oracle -> 1 <= thr -> view_good g F ->
+  forall e al fuel cert st0, enc_ok CO e -> al_ok CO QDC F al ->
+  match run_query oracle thr fuel CO QDC cert e g al st0 with
+  | Done (OAcc b _) _ => b = true <-> cred PR F al
+  | Done (OExt _) _ => False
+  | Panic _ => False
+  | _ => True
+  end.
+Proof. exact SolverTop.top_credulous_preferred. Qed.
+
 Print Assumptions C02_complete_component_partial.
 Print Assumptions C02_stable_component_partial.
+Print Assumptions C02_credulous.
+Print Assumptions C02_credulous_preferred.
